@@ -36,6 +36,11 @@ def _private(ctx, mod, suffix):
     for q, fi in ctx.prog.functions.items():
         if q.startswith(mod + '.') and fi.name.endswith(suffix) and fi.cls is None:
             return fi
+    # the helper may have been moved to another module of the package (and imported back, possibly with fewer underscores)
+    bare = suffix.lstrip('_')
+    moved = [fi for q, fi in ctx.prog.functions.items() if fi.cls is None and fi.parent is None and fi.name.lstrip('_') == bare]
+    if len(moved) == 1:
+        return moved[0]
     raise anchor_error('%s.*%s not found' % (mod, suffix), mod)
 
 
